@@ -230,7 +230,7 @@ func c01r4(c *Ctx) {
 			if n.Block == nil || n.Block.Cond != n.AST || len(n.Succs) != 2 {
 				continue
 			}
-			if x, nonNilOnTrue, ok := f.NilTest(n.AST.(ast.Expr)); ok && f.ObjOf(x) == sup {
+			if x, nonNilOnTrue, ok := f.NilTestVia(n.AST.(ast.Expr)); ok && f.ObjOf(x) == sup {
 				if nonNilOnTrue {
 					edges = append(edges, n.Succs[0])
 				} else {
@@ -242,7 +242,7 @@ func c01r4(c *Ctx) {
 			ob.Bad(nil, "the apply step never calls consensus.ValidateBlock(m.tipState, <stored block>, …): a first-seen block becomes part of the best chain unvalidated")
 			continue
 		}
-		ob.Check(f.OnlyVia(an, edges), nil, "Store.ApplyBlock at %s is reachable on a path that neither passed consensus.ValidateBlock for the stored block nor found a stored supplement: an invalid block can become part of the best chain", c.P.Pos(apply.Pos()))
+		ob.Check(f.OnlyVia(an, edges), c.Witness(f.BypassWitness(an, edges)), "Store.ApplyBlock at %s is reachable on a path that neither passed consensus.ValidateBlock for the stored block nor found a stored supplement: an invalid block can become part of the best chain", c.P.Pos(apply.Pos()))
 		// the update applied must come from consensus.ApplyBlock over the same block
 		ob2 := c.Ob(f, "applies-update-of-validated-block", apply.Pos())
 		good := true
